@@ -222,7 +222,9 @@ func variableConstNames(c *an.Ctx) map[int64]string {
 				vs := s.(*ast.ValueSpec)
 				for _, n := range vs.Names {
 					if o := pk.TypesInfo.Defs[n]; o != nil {
-						if cst, ok := o.(interface{ Val() interface{ String() string } }); ok {
+						if cst, ok := o.(interface {
+							Val() interface{ String() string }
+						}); ok {
 							_ = cst
 						}
 					}
